@@ -165,6 +165,7 @@ func reachableFns(fn *ssa.Function) map[*ssa.Function]bool {
 }
 
 func runC14(c *Ctx, r *Report) {
+	defer round8(c, r, "C14")
 	c14r1(c, r)
 	c14r2(c, r)
 	c14r3(c, r)
